@@ -58,7 +58,14 @@ def part_cooc(ctx):
         cfgs = cfgs_for(rng, ctx.pick(12 if timed else 18, 60))
         if timed:
             cfgs = [c for c in cfgs if c["kernel"] != "harmonic"]
+        else:
+            # variable window radii: the radius of the nullified mask must be 0, whatever the frequencies
+            var = cooc_cfg.with_variable(cfgs_for(rng, 27), rng)
+            for c in var:
+                c["nullify"] = rng.random() < 0.75
+            cfgs = cfgs + rng.sample(var, ctx.pick(8, 27))
         items = cooc_gen.emit(ctx, V, ctx.pick(3 if timed else 4, 4 if timed else 5), ctx.pick(1, 2), cfgs, "Cooc with pruning/masking (%s)" % fam,
+                              invariants=cooc_gen.INVS + ["VariableRadiiWellFormed"],
                               extra_constants=dict(Prunes=tla_prunes(ps), TIMED=timed, Gaps=E("{0,1,2}" if timed else "{1}")))
         for it in items:
             it["prune"] = ps[it["pi"] - 1]
